@@ -1270,6 +1270,16 @@ def structure_roles(ctx):
                     return None
                 ea, ec = endpoint(a), endpoint(c)
                 if ea is None or ec is None:
+                    # endpoints bound to locals first (`let (source, target) = (edge.source(), edge.target());`), possibly captured
+                    def endpoint_flow(op_):
+                        ss_ = fl.sources_operand(b, op_)
+                        for nm_ in ("source", "target"):
+                            if ss_ and all(x.kind == "alloc" and x[4].endswith("Edge::<E, Ix>::" + nm_) for x in ss_):
+                                return nm_
+                        return None
+                    ea = ea or endpoint_flow(t["args"][1])
+                    ec = ec or endpoint_flow(t["args"][2])
+                if ea is None or ec is None:
                     # `structures.add_edge(from, to, w)` method of a private holder: the endpoints are its parameters, what they
                     # are is decided at its call sites (`structures.add_edge(edge.source(), edge.target(), edge.weight)`)
                     H_ = fb.bodies.get(b.root)
